@@ -32,13 +32,13 @@ func Run(ctx *vrun.Ctx, prop string) error {
 		}
 	case "C01":
 		models = []ModelCfg{
-			{Name: "deliver3", N: 3, Works: "{1,2}", Flaws: allFlaws, Graph: true},
-			{Name: "deliver4", N: 4, Works: "{1}", Flaws: allFlaws, Graph: true, MaxPaths: 2000},
+			{Name: "deliver3", N: 3, Works: "{1,2}", Flaws: allFlaws, Graph: true, Catalogue: true},
+			{Name: "deliver4", N: 4, Works: "{1}", Flaws: allFlaws, Graph: true, MaxPaths: 2000, Catalogue: true},
 		}
 		if ctx.Thorough {
 			models = []ModelCfg{
-				{Name: "deliver3", N: 3, Works: "{1,2}", Flaws: allFlaws, Dups: true, Graph: true},
-				{Name: "deliver4", N: 4, Works: "{1,2}", Flaws: allFlaws, Graph: true, MaxPaths: 200000},
+				{Name: "deliver3", N: 3, Works: "{1,2}", Flaws: allFlaws, Dups: true, Graph: true, Catalogue: true},
+				{Name: "deliver4", N: 4, Works: "{1,2}", Flaws: allFlaws, Graph: true, MaxPaths: 200000, Catalogue: true},
 				{Name: "deliver5", N: 5, Works: "{1,2}", Flaws: allFlaws},
 			}
 		}
@@ -122,6 +122,11 @@ func Run(ctx *vrun.Ctx, prop string) error {
 	}
 	if os.Getenv("VERIF_ONLY_UTXO") != "" {
 		return nil
+	}
+	if prop == "C01" {
+		if err := CheckCatalogue(ctx); err != nil {
+			return err
+		}
 	}
 	for _, m := range models {
 		if err := RunModel(ctx, prop, m, 25*time.Minute); err != nil {
